@@ -29,6 +29,8 @@ TECHNIQUE += '; visual_len = len(descape(text)), style(text, fmt=) carries the s
 LEVEL_TEXT += ' Added clauses: see technique (C20.R4 additions).'
 TECHNIQUE += '; colour policy table: Color.enabled interpreted over override x NO_COLOR x FORCE_COLOR x stdout/stderr terminal x policy stream'
 LEVEL_TEXT += ' Added clause: the documented priority of the colour policy, with a stderr policy looking at stderr only.'
+TECHNIQUE += "; repr -> from_raw/parse_fmt with stored specs whose fill character is the wrapper's separator"
+LEVEL_TEXT += ' Added clause: the stored format spec and the text survive repr also when the fill is a colon.'
 LEVEL_NOTE = 'Trusted: format(text, spec) of the standard library; re semantics as parsed by re._parser.'
 EXPLANATION = ('Static analysis of /repo sources, TatSu not imported. Style.apply / apply_style / from_raw are interpreted by the '
                'whitelisted evaluator on checker-built style objects; regex literals of tatsu/util/tty.py are recompiled by the checker.')
